@@ -77,6 +77,20 @@ def eval_doc(args):
                 return d
             want = [(x.reason, x.path) for x in full_errs if x.elem is not None and depth(x.elem) < md]
             if sorted(derrs) != sorted(want): bad.append(('max_depth', md, derrs[:2], want[:2]))
+        # default-namespace forms: the same unprefixed path string used for documents of two different default namespaces, one after the
+        # other in this process (selectors are cached): each partial result must equal the restriction of that document's full result
+        for ns in ('urn:t', 'urn:u'):
+            su = s if ns == 'urn:t' else (_S.get((ver, 'u')) or _S.setdefault((ver, 'u'), _cls(ver)(SCHEMA.replace('urn:t', 'urn:u'))))
+            d2 = doc.replace('xmlns:t="urn:t"', f'xmlns="{ns}"').replace('<t:', '<').replace('</t:', '</')
+            full = su.decode(d2, validation='lax')
+            for upath, key in (('/r/a', 'a'), ('/r/g', 'g')):
+                n += 1
+                part = su.decode(d2, path=upath, validation='lax', namespaces={'': ns})
+                want = full[0].get(key) if isinstance(full[0], dict) else None
+                got = part[0]
+                if want is not None and not isinstance(want, list): want = [want]
+                if got is not None and not isinstance(got, list): got = [got]
+                if (want or None) != (got or None): bad.append(('default-namespace path', ns, upath, str(got)[:60], str(want)[:60]))
     except Exception as e:
         bad.append(('exception', f'{type(e).__name__}: {e}'))
     return dict(doc=doc, ver=ver, cases=n, bad=bad[:3])
